@@ -39,3 +39,13 @@ def register_all(prop):
                "server accounting (hook). non-trivial = history with a refusal and a re-acquisition after release, or a port-0 request by a name "
                "that held a port before; distinct = distinct case."),
          assumptions=["127.0.0.1 only", "port-0 failure is accepted when the bounded probing (5 tries) could have hit only squatted ports"])
+    prop("C13", qshards=8, tshards=16, qlimit=480, tlimit=3000,
+         rule=("histories: 4..26 operations over 3 scripted sessions and tcp / http / tcpmux groups (2 groups per kind, 4 member names each): "
+               "join with right/wrong key and same/different endpoint parameters (fixed port, other port, server-chosen port; domain), leave, session "
+               "drop, single connections and bursts (3n consecutive http requests for rotation, 2..8 concurrent tcp/CONNECT connections). Oracle = "
+               "reference membership model; tagged backends show which member and which session served each connection; endpoint exists iff members; "
+               "after everybody left the server's group/route/port tables are empty (hook) and every kind of group can be created again at once; the "
+               "in-process frps must survive (a dead process is turned into a violation with the journaled case). gated_join_vs_last_leave: the join "
+               "is held between the controller's group lookup and the group's own lock while the last member leaves. non-trivial = history with a "
+               "refused join and a last leave; distinct = distinct op sequence."),
+         assumptions=["groups of different kinds and ids use disjoint endpoints, so cross-group conflicts are outside the generated domain"])
